@@ -284,6 +284,10 @@ class StreamWriter(AbstractStreamWriter):
         if chunk and self._on_chunk_sent is not None:
             await self._on_chunk_sent(chunk)
 
+        if isinstance(chunk, memoryview) and chunk.nbytes != len(chunk):
+            # like write(): sizes below are in bytes, not in items
+            chunk = chunk.cast("c")
+
         # Handle body/compression
         if self._compress:
             chunks: list[bytes] = []
